@@ -195,11 +195,11 @@ def c04_3(ctx):
         if v is None:
             continue
         s = ra.at(n.id, var)
-        if isinstance(v, ast.BinOp) and isinstance(v.op, ast.Add) and isinstance(v.left, ast.Constant) and isinstance(v.left.value, bytes) \
-                and isinstance(v.right, ast.Call) and call_name(v.right) == "int_to_little_endian":
+        tagc = fold.fold(v.left) if isinstance(v, ast.BinOp) and isinstance(v.op, ast.Add) else None  # b"\xfd" or bytes([253]) or a named constant
+        if isinstance(tagc, bytes) and len(tagc) == 1 and isinstance(v.right, ast.Call) and call_name(v.right) == "int_to_little_endian":
             w = fold.fold(v.right.args[1])
-            tiles.append((s, v.left.value[0], w, n))
-            wmap[v.left.value[0]] = w
+            tiles.append((s, tagc[0], w, n))
+            wmap[tagc[0]] = w
         elif isinstance(v, ast.Call) and call_name(v) == "bytes":
             tiles.append((s, None, 1, n))
         else:
@@ -247,11 +247,26 @@ def c04_3(ctx):
     rr = Ranges(ctx.repo, rmod, rfn, {tagvar: ISet.range(0, 255)}, types={tagvar: ISet.range(0, 255)})
     rmap = {}
     plain = ISet.empty()
+    table_keys = None
     for n in rcfg.returns():
         v = n.ast.value if n.ast is not None else None
         s = rr.at(n.id, tagvar)
         if isinstance(v, ast.Call) and call_name(v) == "little_endian_to_int" and isinstance(v.args[0], ast.Call) and call_name(v.args[0]) == "read":
             w = Folder(ctx.repo, rmod.name).fold(v.args[0].args[0])
+            if not isinstance(w, int):
+                # table-driven: width = {253: 2, 254: 4, 255: 8}.get(tag) / TABLE[tag]
+                wex = expand(rfn, n.id, v.args[0].args[0], stop=(tagvar,))
+                tb = None
+                if isinstance(wex, ast.Call) and isinstance(wex.func, ast.Attribute) and wex.func.attr == "get" and wex.args and isinstance(wex.args[0], ast.Name) and wex.args[0].id == tagvar:
+                    tb = Folder(ctx.repo, rmod.name).fold(wex.func.value)
+                elif isinstance(wex, ast.Subscript) and isinstance(wex.slice, ast.Name) and wex.slice.id == tagvar:
+                    tb = Folder(ctx.repo, rmod.name).fold(wex.value)
+                if isinstance(tb, dict) and all(isinstance(k, int) and isinstance(x, int) for k, x in tb.items()):
+                    for k, x in tb.items():
+                        rmap[k] = x
+                    table_keys = ISet.of(list(tb.keys()))
+                    continue
+                raise AnalysisError("read_varint: width `%s` not recognised" % ast.unparse(v.args[0].args[0]))
             if len(s.iv) == 1 and s.iv[0][0] == s.iv[0][1]:
                 rmap[s.iv[0][0]] = w
             else:
@@ -260,6 +275,11 @@ def c04_3(ctx):
             plain = plain.union(s)
         elif isinstance(v, ast.Call) and call_name(v) in ("little_endian_to_int", "big_endian_to_int"):
             raise AnalysisError("read_varint: return form not recognised")
+    if "table_keys" in dir() and table_keys is not None and plain == ISet.range(0, 255):
+        # `width = TABLE.get(tag); if width is None: return tag` : the literal tags are the bytes that are not keys
+        none_guard = any(isinstance(t_.ast, ast.Compare) and isinstance(t_.ast.ops[0], (ast.Is, ast.IsNot)) for t_ in rcfg.tests())
+        if none_guard:
+            plain = ISet.range(0, 255).minus(table_keys)
     if rmap == {0xFD: 2, 0xFE: 4, 0xFF: 8} and plain == ISet.range(0, 0xFC):
         out.append(ctx.ok(rspec, "reader: fd→2, fe→4, ff→8 bytes little endian, tags 0..fc are the value", rfn, rmod, key="reader-map"))
     else:
